@@ -4,6 +4,8 @@ import itertools
 from superrec2.compute.super_reconciliation import _make_prec_graph
 from superrec2.utils.toposort import toposort, toposort_all
 
+from . import c19_cycle
+
 ID = "C19"
 RULE = (
     "digraphs as dict[node, set[node]] with self-loops allowed: every digraph on <= 3 vertices (both "
@@ -369,6 +371,8 @@ def run(ctx, res):
         check_graphs(ctx, res, batch, malformed=True)
     for batch in chunks(gen_prec_cases(ctx), 20000):
         check_prec(ctx, res, batch)
+    # find_cycle (outside the property's statement; modelled as is, tie by exact equality, counts in the distribution)
+    c19_cycle.run_cycle(ctx, res)
     res.exhaustive = bool(ctx.thorough or ctx.deep)
 
 
